@@ -128,6 +128,43 @@ def shapes(tier, seed):
        expect=['ok', 'rejected'])
     ok('D:indexed-register', cfgD2(v1=vrange(8)), {'mnemonic': 't', 'text': 't ix + v1', 'uses': [
         {'set': 'any', 'id': 'xr', 'index_id': 'off', 'index_val': V('v1')}]}, expect=['ok', 'rejected'])
+    # E: every numeric-like operand type tried *before* a register alternative must decline a register name --------
+    numeric_like = {
+        'numeric': {'type': 'numeric', 'bytecode': code('e_n', 4), 'argument': arg(16, True)},
+        'numeric-valid-address': {'type': 'numeric', 'bytecode': code('e_n', 4), 'argument': arg(16, True, valid_address=True)},
+        'address': {'type': 'address', 'bytecode': code('e_n', 4), 'argument': arg(16, True)},
+        'relative': {'type': 'relative_address', 'bytecode': code('e_n', 4), 'argument': arg(16, True)},
+        'numeric-bytecode': {'type': 'numeric_bytecode', 'bytecode': {'size': 4, 'min': 0, 'max': 15}},
+        'numeric-enumeration': {'type': 'numeric_enumeration', 'bytecode': {'size': 4, 'value_dict': {0: 1, 1: 2}}},
+    }
+    bracketed = {
+        'indirect-numeric': {'type': 'indirect_numeric', 'bytecode': code('e_n', 4), 'argument': arg(16, True)},
+        'indirect-numeric-valid-address': {'type': 'indirect_numeric', 'bytecode': code('e_n', 4), 'argument': arg(16, True, valid_address=True)},
+        'deferred-numeric-valid-address': {'type': 'deferred_numeric', 'bytecode': code('e_n', 4), 'argument': arg(16, True, valid_address=True)},
+    }
+    for name, od in numeric_like.items():
+        for how in ('earlier-variant', 'specific-before-set'):
+            osetsE = {'num': {'operand_values': {'n': od}}, 'regs4': {'operand_values': {'ra': REG('e_ra', 'ra', 4), 'rb': REG('e_rb', 'rb', 4)}}}
+            if how == 'earlier-variant':
+                insE = {'j': {'bytecode': code('op_a', 4), 'operands': {'count': 1, 'operand_sets': {'list': ['num']}},
+                              'variants': [{'bytecode': code('op_b', 4), 'operands': {'count': 1, 'operand_sets': {'list': ['regs4']}}}]}}
+                stmt = {'mnemonic': 'j', 'variant': 1, 'text': 'j rb', 'uses': [{'set': 'regs4', 'id': 'rb'}]}
+            else:
+                insE = {'j': {'bytecode': code('op_a', 4), 'operands': {'count': 1, 'specific_operands': {'s': {'list': {'n': od}}},
+                                                                        'operand_sets': {'list': ['regs4']}}}}
+                stmt = {'mnemonic': 'j', 'variant': 0, 'text': 'j rb', 'uses': [{'set': 'regs4', 'id': 'rb'}]}
+            ok(f'E:register-after-{name}:{how}', isa(operand_sets=osetsE, instructions=insE), stmt)
+    for name, od in bracketed.items():
+        osetsE = {'num': {'operand_values': {'n': od}},
+                  'ind': {'operand_values': {'i': {'type': 'indirect_register', 'register': 'sp', 'bytecode': code('e_sp', 4)}}}}
+        insE = {'j': {'bytecode': code('op_a', 4), 'operands': {'count': 1, 'operand_sets': {'list': ['num']}},
+                      'variants': [{'bytecode': code('op_b', 4), 'operands': {'count': 1, 'operand_sets': {'list': ['ind']}}}]}}
+        text = 'j [[sp]]' if name.startswith('deferred') else 'j [sp]'
+        if name.startswith('deferred'):
+            rej(f'E:register-inside-{name}', isa(operand_sets=osetsE, instructions=insE), text)
+        else:
+            ok(f'E:indirect-register-after-{name}', isa(operand_sets=osetsE, instructions=insE),
+               {'mnemonic': 'j', 'variant': 1, 'text': text, 'uses': [{'set': 'ind', 'id': 'i'}]})
     rej('D:undeclared-register-form', cfgD2(), 't rb')
     rej('D:indirect-of-unlisted-register', cfgD2(), 't [ix]')
     rej('D:register-in-brackets-as-number', cfgD2(), 't [ra]')
